@@ -73,7 +73,7 @@ func freshDB(s *bb.Server) string {
 	name := fmt.Sprintf("p%d_%d", os.Getpid(), dbSeq)
 	dbLive = append(dbLive, name)
 	var drop []string
-	for len(dbLive) > 3 {
+	for len(dbLive) > 3 && os.Getenv("C18_NODROP") == "" {
 		drop = append(drop, dbLive[0])
 		dbLive = dbLive[1:]
 	}
